@@ -269,14 +269,15 @@ func checkC12(p *Prog, rp *Report) {
 // objects; Write / Sum / Reset / Size / BlockSize on them are oracles (the next Write returns writeN and
 // writeErr; Sum returns an opaque digest naming its argument).
 type c12Env struct {
-	p        *Prog
-	m        *Machine
-	st       *State
-	writeN   int64
-	writeErr bool
-	writes   []string // "hashtag|argument" per hash.Write
-	sums     []string
-	digest   []byte // what the hash oracle's Sum appends
+	p           *Prog
+	m           *Machine
+	st          *State
+	writeN      int64
+	writeErr    bool
+	writes      []string // "hashtag|argument" per hash.Write
+	sums        []string
+	digest      []byte // what the hash oracle's Sum appends
+	fixedDigest bool   // Sum returns exactly digest (otherwise digest + number of writes so far)
 }
 
 func newC12Env(p *Prog) *c12Env {
@@ -334,7 +335,12 @@ func newC12Env(p *Prog) *c12Env {
 					}
 				}
 			}
-			return []Val{byteSliceVal(st, append(out, e.digest...))}, true
+			// the digest of a real hash depends on everything written so far: the oracle's depends on the count
+			d := append(append([]byte(nil), e.digest...), byte(len(e.writes)))
+			if e.fixedDigest {
+				d = e.digest
+			}
+			return []Val{byteSliceVal(st, append(out, d...))}, true
 		case "Reset":
 			return []Val{nil}, true
 		case "Size":
@@ -478,13 +484,20 @@ func c12Count(p *Prog, rp *Report) {
 		case "Sum":
 			if d, why := e.method(h, hpT, "Sum", nilV{}); why != "" {
 				problems = append(problems, why)
-			} else if deepRender(e.st, d, 0) != "[i171 i205 i239]" {
+			} else if deepRender(e.st, d, 0) != "[i171 i205 i239 i0]" {
 				problems = append(problems, "Sum(nil) does not return the hash's digest: "+deepRender(e.st, d, 0))
+			}
+			// a digest taken in mid-stream does not freeze later ones
+			e.method(h, hpT, "Write", data)
+			if d, why := e.method(h, hpT, "Sum", nilV{}); why != "" {
+				problems = append(problems, why)
+			} else if deepRender(e.st, d, 0) != "[i171 i205 i239 i1]" {
+				problems = append(problems, "Sum(nil) after a further Write does not return the hash's current digest (the digest taken before the Write is returned again): "+deepRender(e.st, d, 0))
 			}
 			pre := byteSliceVal(e.st, []byte{1, 2})
 			if d, why := e.method(h, hpT, "Sum", pre); why != "" {
 				problems = append(problems, why)
-			} else if deepRender(e.st, d, 0) != "[i1 i2 i171 i205 i239]" {
+			} else if deepRender(e.st, d, 0) != "[i1 i2 i171 i205 i239 i1]" {
 				problems = append(problems, "Sum(b) does not hand b to the hash: "+deepRender(e.st, d, 0))
 			}
 		case "Name":
@@ -743,6 +756,7 @@ func c12Close(p *Prog, rp *Report) {
 		var problems []string
 		for _, equal := range []bool{true, false} {
 			e := newC12Env(p)
+			e.fixedDigest = true
 			if equal {
 				e.digest = []byte{0x00, 0xff, 0x10}
 			}
@@ -761,6 +775,22 @@ func c12Close(p *Prog, rp *Report) {
 			}
 			if len(e.sums) != 1 || !strings.HasSuffix(e.sums[0], "|nil") {
 				problems = append(problems, fmt.Sprintf("Close asks the hash for %v, want one Sum(nil)", e.sums))
+			}
+		}
+		// the recorded hash may be spelled in upper case
+		if len(problems) == 0 {
+			e := newC12Env(p)
+			e.fixedDigest = true
+			e.digest = []byte{0xab, 0xcd, 0xef}
+			id := e.st.alloc(fhT, mkStruct(fhT, map[string]Val{"Algorithm": "sha256", "Hash": "ABcdEF", "Size": int64(3), "Filename": "f"}))
+			ret, why := e.call(ver, Ptr{Obj: id})
+			tv, _ := ret.(*TupleV)
+			if why != "" || tv == nil || !errIsNil(tv.E[1]) {
+				problems = append(problems, "Verifier() rejects an entry whose recorded hash is spelled in upper-case hex"+why)
+			} else if res, why := e.method(tv.E[0], nil, "Close"); why != "" {
+				problems = append(problems, why)
+			} else if !errIsNil(res) {
+				problems = append(problems, "an entry whose recorded hash is spelled ABcdEF rejects the stream whose digest is abcdef")
 			}
 		}
 		fillProblems(r, "control.verifier.Close", pos, problems, "first Close: error iff the digest (Sum(nil)) differs from the recorded hash (a digest equal to it and a different one)")
@@ -790,7 +820,7 @@ func c12Close(p *Prog, rp *Report) {
 			} else {
 				fs := structOf(fhT)
 				get := func(n string) string { return valStr(sv.F[fieldIndex(fs, n)]) }
-				if !(get("Algorithm") == `"sha256"` && get("Hash") == `"abcdef"` && get("Size") == "4242" && get("Filename") == `"pool/f.deb"`) {
+				if !(get("Algorithm") == `"sha256"` && (get("Hash") == `"abcdef01"` || get("Hash") == `"abcdef"`) && get("Size") == "4242" && get("Filename") == `"pool/f.deb"`) {
 					problems = append(problems, fmt.Sprintf("entry built from a sha256 hasher that counted 4242 bytes: Algorithm=%s Hash=%s Size=%s Filename=%s", get("Algorithm"), get("Hash"), get("Size"), get("Filename")))
 				}
 			}
